@@ -4,5 +4,6 @@ CONSTANTS
   C = 2
   CountFirst = FALSE
   EarlyAccept = FALSE
+  DialAnyOrder = FALSE
 CONSTRAINT Emit
 CHECK_DEADLOCK FALSE
